@@ -89,6 +89,7 @@ PROPS = {
                       "Modelled, not verified: consistentHashSelector, doublejump, go-jump.",
     },
     "C18": {
+        "kcheck": True,
         "rule": "exhaustive success/failure call traces without sleeps up to length 5 (thorough 7) for thresholds 1..5 (pure counting), "
                 "random timed traces of length 2-7 over {failing call, succeeding call, timed-out call, Ready, Fail, Success} with real "
                 "sleeps of 0 / 0.6 window / 1.5 window between events (window 200 ms), and xclient dial traces against a refusing "
@@ -175,6 +176,7 @@ PROPS = {
         "level_note": "Trusted: Coq kernel, extraction, rig and hooks. Modelled, not verified: client/client.go.",
     },
     "C10": {
+        "kcheck": True,
         "rule": "exhaustive per-attempt outcome sequences {ok, service error, connection lost, context cancelled, deadline exceeded} up to "
                 "the retry bound for modes {fail-fast, fail-try, fail-over} x retries 0..2 x 1..3 servers (quick: every third), plus "
                 "160 (thorough 4000) random scripts with refused dials, 0..4 servers, retries 0..3, arbitrary round-robin cursor; every "
@@ -332,6 +334,7 @@ PROPS = {
                       "handleGatewayRequest, handleJSONRPCRequest, the accept filter of the HTTP sub-listeners.",
     },
     "C19": {
+        "kcheck": True,
         "rule": "120 (thorough 3000) random requests (existing / unknown / dotted service names, unknown methods, handler errors with "
                 "header-safe texts, arguments of the wrong type, 0-3 metadata entries with URL-unsafe characters, arbitrary message ids, "
                 "authentication on or off) each sent through three fresh connections - native, HTTP gateway, JSON-RPC - and compared "
